@@ -244,8 +244,37 @@ def tiny_scale(chk, r, tier):
     chk.count("tiny-scale")
 
 
+F32_SIG = "intersects/float32-storage/cross-product-computed-in-single-precision"
+
+
+def float32_both_sides(chk, r, tier):
+    """points and shape both stored as float32, coordinates exact in float32 but with cross products beyond 2^24: the kernels
+    multiply in the storage type (known finding D44, the point-versus-shape face of D35); every miss of this family is reported under
+    one signature, and the same data stored as float64 must be right"""
+    for kind in ("line", "multiline"):
+        for k in range(6 if tier == "quick" else 40):
+            a, b = (8191, 8189) if k == 0 else (r.randint(4000, 8191), r.randint(4000, 8191))
+            seg = [0, 0, a, b] if kind == "line" else [[0, 0, a, b]]
+            pts = [[r.randint(1, a), r.randint(1, b)] for _ in range(30)]
+            # points of the bounding box whose cross product with the segment is 0, +-1, +-2, +-3: on the line or just off it
+            near = [[x, (2 * x * b + a) // (2 * a)] for x in range(1, a)]
+            pts += [q for q in near if abs(a * q[1] - b * q[0]) <= 3][:40]
+            model = model_matrix(kind, [seg], pts)[0]
+            for st in ("float32", "float64"):
+                parr = geo.make_array("point", pts, st)
+                sh = geo.scalar_class(kind)(np.array(seg[0] if kind == "multiline" else seg, dtype=st)) if kind == "line" else geo.make_array(kind, [seg], st)[0]
+                impl = np.asarray(parr.intersects(sh))
+                chk.evaluated(len(pts))
+                for j in np.nonzero(impl != model)[0]:
+                    chk.violation(F32_SIG if st == "float32" else f"intersects/{kind}/array/regular-point/impl={bool(impl[j])}",
+                                  dict(api="PointArray.intersects", kind=kind, subtype=st, shape=seg, point=pts[int(j)], impl=bool(impl[j]), model=bool(model[j])), size=2)
+                    break
+    chk.count("float32-both-sides")
+
+
 def run_cases(chk, tier):
     r = common.rng(PROP)
+    float32_both_sides(chk, common.rng(PROP + "-f32"), tier)
     tiny_scale(chk, r, tier)
     value_equality(chk, r, tier)
     fam = families(tier)
@@ -296,8 +325,13 @@ def main(tier):
 def replay(path):
     rep = json.load(open(path))
     kind, shape, p = rep["kind"], rep["shape"], rep["point"]
-    parr = geo.make_array("point", [p, None], "float64")
-    sh = geo.make_array(kind, [shape], rep.get("subtype", "float64"))[0]
+    if rep.get("signature") == F32_SIG:
+        # both sides in single precision (the scalar taken from an array would be rebuilt in double)
+        parr = geo.make_array("point", [p, None], "float32")
+        sh = geo.scalar_class(kind)(np.array(shape, dtype="float32"))
+    else:
+        parr = geo.make_array("point", [p, None], "float64")
+        sh = geo.make_array(kind, [shape], rep.get("subtype", "float64"))[0]
     impl = bool(parr.intersects(sh)[0])
     finite = p is not None and all(c == c for c in p)
     model = bool(model_matrix(kind, [shape], [p if finite else None])[0][0])
